@@ -441,6 +441,7 @@ func replaySyntax(args []string) (any, error) {
 			text, offs := layout(row.Toks, mode, rng)
 			texts++
 			sum.Evaluations++
+			disturbParser()
 			ss, perr := parser.ParsePipeline("t.p", text)
 			sig := "syntax:" + row.ID + ":" + text
 			if len(sig) > 300 {
